@@ -23,6 +23,7 @@ Inductive bexp :=
 | BNoneInMembers                                      (* None in members *)
 | BIdxNone                                            (* idx is None *)
 | BIdxIn (t : table)                                  (* idx in self._T   (Python's None is the label LNone) *)
+| BIsNone (v : vexp)                                  (* v is None *)
 | BNot (b : bexp) | BAnd (a b : bexp).
 Inductive stmt :=
 | SIf (c : bexp) (th el : list stmt)
@@ -43,6 +44,7 @@ Inductive stmt :=
 | SForKeys (t : table) (body : list stmt)             (* for <loop> in self.nodes / self.edges: body   (the body keeps the key set) *)
 | SClear (t : table) | SClearAttr (t : table)         (* self._T.clear()   self._T_attr.clear() *)
 | SClearNet                                            (* self._net_attr.clear() *)
+| SSetMembers (t : table) (k : vexp)                  (* self._T[k] = members   /   = frozenset(members) *)
 | SNop. (* for <loop> in <i-th bound set>[.difference({minus})]: body *)
 
 Record env := mkEnv { e_args : list lbl; e_flags : list bool; e_loop : lbl; e_attr : attrs; e_loop1 : lbl; e_locals : list (list lbl);
@@ -70,6 +72,7 @@ Fixpoint beval (b : bexp) (en : env) (s : hg) : bool + exc :=
   | BFlag i => inl (nth i (e_flags en) false)
   | BNoneInMembers => inl (existsb is_none (e_members en))
   | BIdxNone => inl (match e_idx en with None => true | Some _ => false end)
+  | BIsNone v => inl (is_none (veval v en))
   | BIdxIn t => inl (has (match e_idx en with Some i => i | None => LNone end) (tab t s))
   | BNot c => match beval c en s with inl v => inl (negb v) | inr e => inr e end
   | BAnd a c => match beval a en s with
@@ -183,6 +186,8 @@ Fixpoint exec (p : stmt) (en : env) (s : hg) {struct p} : hg * outcome :=
   | SClear t => (set_tab t s [], Ok)
   | SClearAttr t => (set_atab t s [], Ok)
   | SClearNet => (mkHG (h_node s) (h_nattr s) (h_edge s) (h_eattr s) [] (h_uid s), Ok)
+  | SSetMembers t k => if is_none (veval k en) then (s, Raised XGIError)
+                       else (set_tab t s (set (veval k en) (e_members en) (tab t s)), Ok)
   | SNop => (s, Ok)
   end.
 
@@ -219,3 +224,7 @@ Definition run_method_m (gs : list (bexp * guard_action)) (body : list stmt) (me
 (* a method (self, <iterable of ids>) / (self, <flags>) *)
 Definition run_method_l (body : list stmt) (ids : list lbl) (flags : list bool) (s : hg) : res :=
   match exec_list body (mkEnv [] flags LNone [] LNone [] ids None LNone) s with (s', o) => (s', o, O) end.
+
+(* a helper (self, members, idx=None, **attr) that receives the member set ready-made (a frozenset: no repeats) *)
+Definition run_method_f (body : list stmt) (members : list lbl) (idx : option lbl) (a : attrs) (s : hg) : res :=
+  run_guarded [] body (mkEnv [] [] LNone a LNone [] members idx LNone) s.
